@@ -45,7 +45,7 @@ pub struct Step {
 
 /// first line: the three probed variables, hex encoded (`S:<hex>` set, `U` unset), so that values with
 /// newlines, quotes or non-ASCII text are compared exactly; further lines: the other state classes
-const PROBE: &str = r#"printf 'VARS %s|%s|%s\n' "$( [ -n "${SCRUT_VERIF_INHERITED+s}" ] && { printf 'S:'; printf %s "$SCRUT_VERIF_INHERITED" | od -An -v -tx1 | tr -d ' \n'; } || printf U )" "$( [ -n "${X+s}" ] && { printf 'S:'; printf %s "$X" | od -An -v -tx1 | tr -d ' \n'; } || printf U )" "$( [ -n "${Y+s}" ] && { printf 'S:'; printf %s "$Y" | od -An -v -tx1 | tr -d ' \n'; } || printf U )"; declare -p ARR 2>/dev/null || echo "ARR unset"; declare -p MAP 2>/dev/null || echo "MAP unset"; if declare -F f >/dev/null; then f; else echo "f undefined"; fi; if declare -F g >/dev/null; then g 42; else echo "g undefined"; fi; alias ll 2>/dev/null || echo "ll unaliased"; shopt -p extglob; set -o | grep -E '^(pipefail|nounset|noglob) '; pwd; dirs; export -p | grep -cE ' (X|Y)='; declare -p | grep -E '^declare -[-a-zA-Z]* (NB_[A-Za-z0-9_]*|[A-Za-z0-9_]*_NB)=' | sort"#;
+const PROBE: &str = r#"printf 'VARS %s|%s|%s\n' "$( [ -n "${SCRUT_VERIF_INHERITED+s}" ] && { printf 'S:'; printf %s "$SCRUT_VERIF_INHERITED" | od -An -v -tx1 | tr -d ' \n'; } || printf U )" "$( [ -n "${X+s}" ] && { printf 'S:'; printf %s "$X" | od -An -v -tx1 | tr -d ' \n'; } || printf U )" "$( [ -n "${Y+s}" ] && { printf 'S:'; printf %s "$Y" | od -An -v -tx1 | tr -d ' \n'; } || printf U )"; declare -p ARR 2>/dev/null || echo "ARR unset"; declare -p MAP 2>/dev/null || echo "MAP unset"; if declare -F f >/dev/null; then f; else echo "f undefined"; fi; if declare -F g >/dev/null; then g 42; else echo "g undefined"; fi; if declare -F h >/dev/null; then h 2>/dev/null || echo "h failed"; else echo "h undefined"; fi; echo "code=${code-unset} OLDPWD=${OLDPWD-unset}"; alias ll 2>/dev/null || echo "ll unaliased"; shopt -p extglob; set -o | grep -E '^(pipefail|nounset|noglob) '; pwd; dirs; export -p | grep -cE ' (X|Y)='; declare -p | grep -E '^declare -[-a-zA-Z]* (NB_[A-Za-z0-9_]*|[A-Za-z0-9_]*_NB)=' | sort"#;
 
 fn step_pool() -> Vec<Step> {
     let mut v = step_pool_raw();
@@ -100,6 +100,17 @@ fn step_pool_raw() -> Vec<Step> {
         s("Y=recreated; rm -rf \"$TMPDIR\" && mkdir \"$TMPDIR\"", "tmpdir-recreated"),
         // a function whose body needs `extglob` to be PARSED: the carrier must restore the option before the function
         s("shopt -s extglob\ng() { case \"$1\" in +([0-9])) echo num;; *) echo other;; esac; }", "function-extglob"),
+        // a function that calls a word which is (or becomes) an alias: in one session the body is fixed when it is defined
+        s("h() { ll; }", "function-calls-alias-word"),
+        // an alias with the name of a function: reading the function back must not expand it
+        s("alias f='echo alias-f'", "alias-function-name"),
+        // the names scrut's own hook uses must stay the user's
+        s("code=mine", "hook-local-name"),
+        s("cd - >/dev/null 2>&1 || true", "oldpwd"),
+        s("set -a", "set-o-allexport"),
+        s("set +a", "set-o-allexport"),
+        // the user's own EXIT trap replaces the hook that persists the state (open finding)
+        s("trap 'echo bye' EXIT", "user-exit-trap"),
         s("alias ll='echo aliased'", "alias"),
         s("unalias ll 2>/dev/null || true", "alias-unset"),
         s("shopt -s extglob", "shopt"),
@@ -213,11 +224,13 @@ fn history_case(prop: &str, steps: Vec<Step>, root: &Path, idx: u64) -> CaseRec 
             if na != nb {
                 let first = na.iter().zip(nb.iter()).position(|(x, y)| x != y).unwrap_or(na.len().min(nb.len()));
                 // classify by the state classes used up to the first deviating step
-                let upto: Vec<&str> = steps.iter().take(first + 1).map(|s| if s.snippet.contains("unset SCRUT_VERIF_INHERITED") { "unset-inherited" } else if s.snippet.contains("readonly ") { "readonly" } else { "other" }).collect();
+                let upto: Vec<&str> = steps.iter().take(first + 1).map(|s| if s.snippet.contains("unset SCRUT_VERIF_INHERITED") { "unset-inherited" } else if s.snippet.contains("readonly ") { "readonly" } else if s.class == "user-exit-trap" { "user-exit-trap" } else { "other" }).collect();
                 let class = if upto.contains(&"unset-inherited") {
                     "C12:unset-of-inherited-variable-not-carried"
                 } else if upto.contains(&"readonly") {
                     "C12:readonly-variable-not-carried"
+                } else if upto.contains(&"user-exit-trap") {
+                    "C12:user-exit-trap-replaces-hook"
                 } else {
                     "C12:state-differs-from-single-session"
                 };
@@ -249,13 +262,14 @@ fn history_case(prop: &str, steps: Vec<Step>, root: &Path, idx: u64) -> CaseRec 
 /// must behave as they do in one session -- in particular scrut's own persist hook has to survive the option
 /// (`set -e`: a command of the hook that returns non-zero ends it before the state is written and replaces the
 /// exit code of the test case).
-const OPTIONS: [&str; 12] = ["set -e", "set -u", "set -o pipefail", "set -e -o pipefail", "set -eu", "set -f", "set -C", "set -E", "set -T", "shopt -s nullglob", "shopt -s failglob", "shopt -s extglob; set -e"];
+const OPTIONS: [&str; 15] = ["set -o posix", "set -a", "set -x", "set -e", "set -u", "set -o pipefail", "set -e -o pipefail", "set -eu", "set -f", "set -C", "set -E", "set -T", "shopt -s nullglob", "shopt -s failglob", "shopt -s extglob; set -e"];
 
 fn option_case(prop: &str, idx: u64, root: &Path) -> CaseRec {
     let opt = OPTIONS[(idx as usize) % OPTIONS.len()];
     // the second half switches extglob off again after it was on (the hook lists that option separately)
-    let pre = if idx as usize >= OPTIONS.len() { "shopt -s extglob" } else { "true" };
-    let show = "set -o | grep -E '^(errexit|nounset|pipefail|noglob|noclobber|errtrace|functrace) '; shopt -p nullglob failglob extglob || true";
+    // an alias is defined before the option and used after it (`alias` prints differently in POSIX mode)
+    let pre = if idx as usize >= OPTIONS.len() { "shopt -s extglob; alias ll='echo aliased'" } else { "alias ll='echo aliased'" };
+    let show = "set -o | grep -E '^(errexit|nounset|pipefail|noglob|noclobber|errtrace|functrace) '; shopt -p nullglob failglob extglob || true; ll";
     let exprs: Vec<String> = vec![pre.to_string(), format!("shopt -u extglob; {opt}"), "echo hi".into(), "X=kept".into(), format!("echo \"$X\"; {show}"), "(exit 3)".into(), "echo after".into()];
     let dir = root.join(format!("o-{idx}"));
     let _ = std::fs::remove_dir_all(&dir);
